@@ -591,12 +591,28 @@ func joinMax(ss []string, n int) string {
 // ruleEscaperFast checks the fast path f(dst, text): the whole-text raw copy happens only after
 // every byte passed the no-escape test.
 func ruleEscaperFast(r *Run, p *Prog, rule string, f *ssa.Function, textIdx int, table *ssa.Global, complexFn *ssa.Function) {
-	name := FnName(f)
 	if len(f.Params) <= textIdx {
-		r.Fail(rule, name+"/shape", p.Pos(f.Pos()), "unexpected signature")
+		r.Fail(rule, FnName(f)+"/shape", p.Pos(f.Pos()), "unexpected signature")
 		return
 	}
-	text := f.Params[textIdx]
+	ruleEscaperFastOn(r, p, rule, f, f.Params[textIdx], table, complexFn, nil)
+}
+
+// ruleEscaperFastOn: like ruleEscaperFast for an arbitrary text value; exempt(c) marks raw copies
+// that are allowed for another stated reason.
+func ruleEscaperFastOn(r *Run, p *Prog, rule string, f *ssa.Function, text ssa.Value, table *ssa.Global, complexFn *ssa.Function, exempt func(*ssa.Call) bool) {
+	name := FnName(f)
+	// the size a fixed-size read was asked for is the text's length
+	var readSize ssa.Value
+	if c, ok := text.(*ssa.Call); ok && len(c.Call.Args) == 2 && isIntLike(c.Call.Args[1].Type()) {
+		readSize = c.Call.Args[1]
+	}
+	isLenOfText := func(v ssa.Value) bool {
+		if lc, ok := v.(*ssa.Call); ok && builtinName(&lc.Call) == "len" && lc.Call.Args[0] == text {
+			return true
+		}
+		return readSize != nil && v == readSize
+	}
 	var raws []*ssa.Call
 	eachInstr(f, func(b *ssa.BasicBlock, i int, in ssa.Instruction) {
 		c, ok := in.(*ssa.Call)
@@ -604,7 +620,7 @@ func ruleEscaperFast(r *Run, p *Prog, rule string, f *ssa.Function, textIdx int,
 			return
 		}
 		spread, _ := appendElems(c)
-		if spread == ssa.Value(text) {
+		if spread == text && (exempt == nil || !exempt(c)) {
 			raws = append(raws, c)
 		}
 	})
@@ -618,8 +634,7 @@ func ruleEscaperFast(r *Run, p *Prog, rule string, f *ssa.Function, textIdx int,
 		var idxPhi *ssa.Phi
 		exit := hasCmp(cs, func(op token.Token, x, y ssa.Value) bool {
 			ph, ok := x.(*ssa.Phi)
-			lc, ok2 := y.(*ssa.Call)
-			if !ok || !ok2 || builtinName(&lc.Call) != "len" || lc.Call.Args[0] != ssa.Value(text) || op != token.GEQ {
+			if !ok || !isLenOfText(y) || op != token.GEQ {
 				return false
 			}
 			idxPhi = ph
